@@ -783,13 +783,16 @@ def configs(tier):
         # per-configuration path budget: generous, the thorough tier is
         # also run next to other checks (a smaller budget was exhausted
         # with prefixes pending => inconclusive, never "held")
-        base['budget'] = 3600
+        base['budget'] = 2400
         for cyc in cycles:
             for ssl in ssls:
                 for sup in (False, True):
                     add(cycle=cyc, sslsolver=ssl, supplied=sup)
+                    # (multigrid as preconditioner WITH semicoarsening and
+                    # line relaxation: one Krylov step; two exhausted a
+                    # 900 s path budget per configuration)
                     add(cycle=cyc, sslsolver=ssl, supplied=sup, sc=True,
-                        lr=True, maxit=2 if ssl else 3)
+                        lr=True, maxit=(1 if cyc else 2) if ssl else 3)
         for sc, lr in [(1, 0), (0, 7), (1213, 47), (30, 1234567)]:
             for cyc in ('F', 'W'):
                 add(cycle=cyc, sslsolver=False, sc=sc, lr=lr, maxit=2)
